@@ -28,13 +28,14 @@ pub fn check() -> Check {
     Check {
         property: "C04",
         level: "exploration",
-        rule: "structure-aware hostile artifacts: well-formed traffic produced by rpgp (messages over the builder's configuration space, certificates, locked and unlocked secret keys, detached signatures, cleartext documents) is damaged at a chosen layer - armor text, packet stream, inside the plaintext BEFORE encryption (re-encrypted with real rpgp under the session key the recipient holds), inside the compressed stream before compression - by bit flips, byte stores, truncation, range duplication/deletion/insertion and length-field edits; PKESK packets are built around attacker-chosen session-key plaintext of every length 0..40 x sampled (thorough: every) first octet for each public-key algorithm in the pool; for ECDH recipients the byzantine peer does KDF and AES key wrap itself (ephemeral point = the curve's base point, so the shared secret is the recipient's public point) and chooses the PADDED plaintext: every padded length 8..56 x every value of the trailing padding octet x 3 fillers; every one-octet parameter field of SKESK, secret-key S2K, signature, one-pass, literal and compressed headers is swept over 0..255. Everything is delivered through hostile schedules (1 byte per read, BufReader capacity 1) and with transient/hard I/O faults to the processing entry points: parse, dearmor, decrypt with the matching key or password, decompress, drain, verify, unlock, re-serialize. Oracle: no panic, no seam-call livelock (step budget), no run longer than the 120 s watchdog. Non-trivial: the artifact was actually changed; distinct = (artifact shape, layer, mutation) hash.",
+        rule: "structure-aware hostile artifacts: well-formed traffic produced by rpgp (messages over the builder's configuration space, certificates, locked and unlocked secret keys, detached signatures, cleartext documents) is damaged at a chosen layer - armor text, packet stream, inside the plaintext BEFORE encryption (re-encrypted with real rpgp under the session key the recipient holds), inside the compressed stream before compression - by bit flips, byte stores, truncation, range duplication/deletion/insertion and length-field edits; PKESK packets are built around attacker-chosen session-key plaintext of every length 0..40 x sampled (thorough: every) first octet for each public-key algorithm in the pool; for ECDH recipients the byzantine peer does KDF and AES key wrap itself (ephemeral point = the curve's base point, so the shared secret is the recipient's public point) and chooses the PADDED plaintext: every padded length 8..56 x every value of the trailing padding octet x 3 fillers; every one-octet parameter field of SKESK, secret-key S2K, signature, one-pass, literal and compressed headers is swept over 0..255. Everything is delivered through hostile schedules (1 byte per read, BufReader capacity 1) and with transient/hard I/O faults to the processing entry points: parse, dearmor, decrypt with the matching key or password, decompress, drain, verify, unlock, re-serialize. Deeply nested structures (embedded signatures inside embedded signatures in v4 and v6 signature packets, compressed packets inside compressed packets) are processed in a child process on a thread with a 2 MiB stack (the default of std::thread): a child killed by a signal is a stack overflow. Oracle: no panic, no stack overflow, no seam-call livelock (step budget), no run longer than the 120 s watchdog. Non-trivial: the artifact was actually changed; distinct = (artifact shape, layer, mutation) hash.",
         families: vec![
             Family { name: "traffic", gen: gen_traffic, run: run_traffic },
             Family { name: "byz_pkesk", gen: gen_pkesk, run: run_pkesk },
             Family { name: "byz_ecdh", gen: gen_ecdh, run: run_ecdh },
             Family { name: "byz_sig_mpis", gen: gen_sig_mpis, run: run_sig_mpis },
             Family { name: "byz_cross_alg", gen: gen_cross_alg, run: run_cross_alg },
+            Family { name: "deep_nesting", gen: gen_deep, run: run_deep },
             Family { name: "byz_octets", gen: gen_octets, run: run_octets },
         ],
         assumptions: vec![
@@ -979,6 +980,147 @@ fn run_cross_alg(plan: &Value, rec: &mut Rec) {
         Err(pn) => rec.violation("panic", &norm_loc(&pn.loc), format!("signature made by {} and attributed to {}: {}", signer.name, victim.name, pn.msg), plan.clone()),
         Ok(Err(e)) => rec.count(&format!("skip:cross:{}", &e[..e.len().min(40)])),
         Ok(Ok(())) => {}
+    }
+}
+
+// ------------------------------------------------------------------ deep nesting, judged on a small stack in a child process
+
+/// everything a recipient might do with these bytes (runs in the child process, see main.rs `stack-probe`)
+pub fn probe_entry_points(bytes: Vec<u8>) {
+    let bytes = Arc::new(bytes);
+    let consumer = Consumer::ReadLoop(vec![4096]);
+    let verifiers = vec!["ed25519-v4"];
+    for kind in ["sig", "msg", "pubkey"] {
+        let _ = guard(|| process(kind, &bytes, false, &Opener::None, &Sched::Full, 8192, &[], &consumer, &verifiers));
+    }
+}
+
+fn gen_deep(ctx: &GenCtx) -> Vec<Value> {
+    let mut v = Vec::new();
+    let big = ctx.tier == Tier::Thorough;
+    for depth in [10usize, 200, 3000] {
+        v.push(json!({"kind": "embedded_sig_v4", "depth": depth, "stack_kib": 2048}));
+    }
+    for depth in [200usize, 3000, if big { 20000 } else { 6000 }] {
+        v.push(json!({"kind": "embedded_sig_v6", "depth": depth, "stack_kib": 2048}));
+    }
+    for depth in [200usize, 2000, if big { 20000 } else { 5000 }] {
+        v.push(json!({"kind": "compressed", "depth": depth, "stack_kib": 2048}));
+    }
+    v
+}
+
+fn subpacket_len(n: usize) -> Vec<u8> {
+    if n < 192 {
+        vec![n as u8]
+    } else if n < 8384 {
+        vec![((n - 192) >> 8) as u8 + 192, ((n - 192) & 0xff) as u8]
+    } else {
+        let mut v = vec![255u8];
+        v.extend_from_slice(&(n as u32).to_be_bytes());
+        v
+    }
+}
+
+fn deep_artifact(kind: &str, depth: usize) -> Vec<u8> {
+    match kind {
+        "embedded_sig_v4" | "embedded_sig_v6" => {
+            let v6 = kind.ends_with("v6");
+            let tail: &[u8] = &[0xAA, 0xBB, 0, 1, 1, 0, 1, 1]; // left 16 bits, two one-bit MPIs (EdDSA legacy)
+            let mk = |unhashed: &[u8]| -> Vec<u8> {
+                let mut b = vec![if v6 { 6 } else { 4 }, 0x19, 22, 8];
+                if v6 {
+                    b.extend_from_slice(&0u32.to_be_bytes());
+                    b.extend_from_slice(&(unhashed.len() as u32).to_be_bytes());
+                } else {
+                    b.extend_from_slice(&0u16.to_be_bytes());
+                    b.extend_from_slice(&(unhashed.len() as u16).to_be_bytes());
+                }
+                b.extend_from_slice(unhashed);
+                b.extend_from_slice(&tail[..2]);
+                if v6 {
+                    b.push(0); // salt length (wrong for the hash: the parser looks at it after the subpackets)
+                }
+                b.extend_from_slice(&tail[2..]);
+                b
+            };
+            let mut body = mk(&[]);
+            for _ in 0..depth {
+                let mut sub = subpacket_len(body.len() + 1);
+                sub.push(32); // embedded signature
+                sub.extend_from_slice(&body);
+                if !v6 && sub.len() > 65535 {
+                    break;
+                }
+                body = mk(&sub);
+            }
+            frame(2, &body, &LenForm::New5).unwrap_or_default()
+        }
+        _ => {
+            // compressed data packet, algorithm 0 (uncompressed), containing a compressed data packet, ...
+            let mut inner = frame(11, &[b'b', 0, 0, 0, 0, 0, b'x'], &LenForm::NewMinimal).unwrap_or_default();
+            for _ in 0..depth {
+                let mut b = vec![0u8];
+                b.extend_from_slice(&inner);
+                inner = frame(8, &b, &LenForm::New5).unwrap_or_default();
+            }
+            inner
+        }
+    }
+}
+
+fn run_deep(plan: &Value, rec: &mut Rec) {
+    use std::io::Write;
+    use std::process::{Command, Stdio};
+    let kind = jstr(plan, "kind");
+    let depth = jusize(plan, "depth");
+    let kib = jusize(plan, "stack_kib").max(256);
+    let artifact = deep_artifact(kind, depth);
+    let mut h = Fnv::default();
+    h.str(&plan.to_string());
+    rec.eval(h.0, true);
+    rec.count(&format!("fault:F-byz:deep-nesting:{kind}"));
+    rec.sample(json!({"kind": kind, "depth": depth, "artifact_bytes": artifact.len(), "stack_kib": kib}));
+    let Ok(exe) = std::env::current_exe() else {
+        rec.count("skip:no-current-exe");
+        return;
+    };
+    let child = Command::new(exe).arg("stack-probe").arg(kib.to_string()).stdin(Stdio::piped()).stdout(Stdio::null()).stderr(Stdio::null()).spawn();
+    let Ok(mut child) = child else {
+        rec.count("skip:cannot-spawn-probe");
+        return;
+    };
+    if let Some(mut stdin) = child.stdin.take() {
+        let _ = stdin.write_all(&artifact);
+    }
+    let t0 = std::time::Instant::now();
+    let status = loop {
+        match child.try_wait() {
+            Ok(Some(s)) => break Some(s),
+            Ok(None) if t0.elapsed().as_secs() > 100 => {
+                let _ = child.kill();
+                let _ = child.wait();
+                break None;
+            }
+            Ok(None) => std::thread::sleep(std::time::Duration::from_millis(20)),
+            Err(_) => break None,
+        }
+    };
+    match status {
+        None => rec.violation("hang", &format!("deep:{kind}"), format!("{depth} levels of {kind} ({} octets): still being processed after 100 s", artifact.len()), plan.clone()),
+        Some(s) if s.success() => {}
+        Some(s) => {
+            use std::os::unix::process::ExitStatusExt;
+            match s.signal() {
+                Some(sig) => rec.violation(
+                    "stack-overflow",
+                    &format!("deep:{kind}"),
+                    format!("{depth} levels of {kind} ({} octets) processed on a thread with a {kib} KiB stack: the process was killed by signal {sig} (stack overflow aborts, it cannot be caught)", artifact.len()),
+                    plan.clone(),
+                ),
+                None => rec.violation("panic", &format!("deep:{kind}"), format!("{depth} levels of {kind}: the probe process exited with {:?}", s.code()), plan.clone()),
+            }
+        }
     }
 }
 
